@@ -345,7 +345,7 @@ func c18Harnesses(prog *MProgram) []Harness {
 			th := tuples(seq(0, 1), seq(0, 2))
 			if containerHeavy(&s) {
 				// measured: independent x, y with every container of length 2 does not finish in the thorough budget
-				th = append(tuples(seq(0, 1), seq(0, 1)), []int64{1, 2})
+				th = tuples(seq(0, 1), seq(0, 1)) // (mirrored pairs of length 2 did not finish in 45 min either)
 			}
 			hs = append(hs, Harness{Func: "H_C18_deepequal_" + s.Name, Quick: tuples([]int64{1}, seq(0, 1)), Thorough: th, Covers: []string{"equal", "different"}})
 			hs = append(hs, Harness{Func: "H_C18_nil_" + s.Name, Covers: []string{"end"}})
@@ -364,7 +364,7 @@ func init() {
 	register(&Prop{
 		ID: "C18", QuickBudget: 25 * time.Minute, ThoroughBudget: 90 * time.Minute,
 		Functions:   []string{"generated (*T).DeepEqual and FieldNDeepEqual for every struct-like of the corpus", "generated Write (set uniqueness validation)", "strings.Compare / bytes.Compare"},
-		Bounds:      "two independent symbolic values x, y of every struct-like of the corpus (all leaves full-width symbolic, optional presence symbolic, map keys symbolic so key sets may differ), containers/strings of length n (quick 0..1, thorough 0..2; the container-heavy struct: independent pairs up to length 1, mirrored pairs up to 2); set validation with 2 (thorough 3) free elements per set",
+		Bounds:      "two independent symbolic values x, y of every struct-like of the corpus (all leaves full-width symbolic, optional presence symbolic, map keys symbolic so key sets may differ), containers/strings of length n (quick 0..1, thorough 0..2; the container-heavy struct: up to length 1); set validation with 2 (thorough 3) free elements per set",
 		Assumptions: []string{"doubles are not NaN (the statement does not say)", "struct-typed map values and list elements are non-nil", "struct-typed map keys are outside the corpus", "the programs dimension is the designed corpus"},
 		Variants: []*Prop{
 			genVariantCorpus("gen_deep_equal", "gen_deep_equal", genOpts{}, "zzgen/a", entryC18, c18Harnesses, corpusNoStructSet),
